@@ -258,11 +258,12 @@ fn format_attribute(
 
     if let Some((last, main)) = attr.arguments.split_last() {
         output.push('(');
+        // The arguments are a comma separated list so a comma expression needs parenthesis
         for expr in main {
-            format_expression(expr, output, context)?;
+            format_subexpression(expr, 17, OperatorSide::CommaList, output, context)?;
             output.push_str(", ");
         }
-        format_expression(last, output, context)?;
+        format_subexpression(last, 17, OperatorSide::CommaList, output, context)?;
         output.push(')');
     }
 
